@@ -195,21 +195,27 @@ static void c7_table(void){
 
 /* the three header packets of every link, in physical order, for the model */
 static void c7_headers(void){
-  ogg_sync_state oy; ogg_page og; ogg_stream_state os; int have=0; long off=0; int cnt=0;
+  ogg_sync_state oy; ogg_page og; long off=0; int i,nst=0;
+  typedef struct { long serial; ogg_stream_state os; int cnt; int live; long bos; } hst;
+  static hst st[128];
   ogg_sync_init(&oy);
   { char *b=ogg_sync_buffer(&oy,c7_phys.n); memcpy(b,c7_phys.p,c7_phys.n); ogg_sync_wrote(&oy,c7_phys.n); }
   for(;;){
-    long r=ogg_sync_pageseek(&oy,&og); ogg_packet op;
+    long r=ogg_sync_pageseek(&oy,&og); ogg_packet op; hst *s=NULL; long serial;
     if(r==0)break;
     if(r<0){ off+=-r; continue; }
-    if(ogg_page_bos(&og)){ if(have)ogg_stream_clear(&os); ogg_stream_init(&os,ogg_page_serialno(&og)); have=1; cnt=0; }
-    if(have&&cnt<3&&ogg_page_serialno(&og)==os.serialno){
-      ogg_stream_pagein(&os,&og);
-      while(cnt<3&&ogg_stream_packetout(&os,&op)>0){ printf("hdrpk serial=%ld k=%d ",os.serialno,cnt); puthex(op.packet,op.bytes); putchar('\n'); cnt++; }
+    serial=ogg_page_serialno(&og);
+    if(ogg_page_bos(&og)&&nst<128){
+      for(i=0;i<nst;i++)if(st[i].live&&st[i].serial==serial){ ogg_stream_clear(&st[i].os); st[i].live=0; }
+      s=&st[nst++]; s->serial=serial; s->cnt=0; s->live=1; s->bos=off; ogg_stream_init(&s->os,serial);
+    }else for(i=nst-1;i>=0;i--)if(st[i].live&&st[i].serial==serial){ s=&st[i]; break; }
+    if(s&&s->cnt<3){
+      ogg_stream_pagein(&s->os,&og);
+      while(s->cnt<3&&ogg_stream_packetout(&s->os,&op)>0){ printf("hdrpk serial=%ld k=%d bos=%ld ",serial,s->cnt,s->bos); puthex(op.packet,op.bytes); putchar('\n'); s->cnt++; }
     }
     off+=r;
   }
-  if(have)ogg_stream_clear(&os);
+  for(i=0;i<nst;i++)if(st[i].live)ogg_stream_clear(&st[i].os);
   ogg_sync_clear(&oy);
 }
 
@@ -221,6 +227,71 @@ static void c7_damage(int kind,long a,long b){
   else if(kind==3){ if(a<c7_phys.n)c7_phys.p[a]^=(1<<(b&7)); }
   else if(kind==4){ if(a+b>c7_phys.n)b=c7_phys.n-a; memmove(c7_phys.p+a,c7_phys.p+a+b,c7_phys.n-a-b); c7_phys.n-=b; }
   else if(kind==5){ if(a+b>c7_phys.n)b=c7_phys.n-a; if(b>0){ unsigned char *t=malloc(b); memcpy(t,c7_phys.p+a,b); buf_add(&c7_phys,t,b); memmove(c7_phys.p+a+b,c7_phys.p+a,c7_phys.n-b-a); memcpy(c7_phys.p+a,t,b); free(t);} }
+}
+
+/* page-level damage: the physical stream is cut into its pages (and the junk between them), edited, and glued together again.
+   kinds: 6 delete page i; 7 duplicate page i; 8 swap pages i and j; 9 serial of page i := v; 10 granule position of page i := v;
+   11 header-type flags of page i ^= v; 12 page sequence number of page i := v.  Edited pages get a fresh CRC. */
+typedef struct { long off,len; int ispage; } c7_seg;
+static int c7_segments(buf_t *b,c7_seg *seg,int max){
+  ogg_sync_state oy; ogg_page og; long off=0; int n=0;
+  ogg_sync_init(&oy);
+  { char *d=ogg_sync_buffer(&oy,b->n); memcpy(d,b->p,b->n); ogg_sync_wrote(&oy,b->n); }
+  for(;n<max;){
+    long r=ogg_sync_pageseek(&oy,&og);
+    if(r==0)break;
+    if(r<0){ seg[n].off=off; seg[n].len=-r; seg[n].ispage=0; n++; off+=-r; continue; }
+    seg[n].off=off; seg[n].len=r; seg[n].ispage=1; n++; off+=r;
+  }
+  if(off<b->n&&n<max){ seg[n].off=off; seg[n].len=b->n-off; seg[n].ispage=0; n++; }
+  ogg_sync_clear(&oy);
+  return n;
+}
+static void c7_recrc(unsigned char *pg,long len){
+  ogg_page og; og.header=pg; og.header_len=27+pg[26]; og.body=pg+og.header_len; og.body_len=len-og.header_len;
+  if(og.body_len>=0)ogg_page_checksum_set(&og);
+}
+static void c7_pagedamage(int kind,long i,long j,long long v){
+  static c7_seg seg[4096]; int n=c7_segments(&c7_phys,seg,4096),k,np=0; int idx[4096]; buf_t out={0,0,0};
+  for(k=0;k<n;k++)if(seg[k].ispage)idx[np++]=k;
+  if(np==0)return;
+  i=((i%np)+np)%np; j=((j%np)+np)%np;
+  for(k=0;k<n;k++){
+    int me=(k==idx[i]);
+    unsigned char *src=c7_phys.p+seg[k].off; long len=seg[k].len;
+    if(kind==6&&me)continue;
+    if(kind==8&&(k==idx[i]||k==idx[j])){ int o=(k==idx[i])?idx[j]:idx[i]; buf_add(&out,c7_phys.p+seg[o].off,seg[o].len); continue; }
+    {
+      long at=out.n; buf_add(&out,src,len);
+      if(me&&len>=27){
+        unsigned char *pg=out.p+at;
+        if(kind==9){ pg[14]=v&255; pg[15]=(v>>8)&255; pg[16]=(v>>16)&255; pg[17]=(v>>24)&255; c7_recrc(pg,len); }
+        else if(kind==10){ int b; for(b=0;b<8;b++)pg[6+b]=(unsigned char)((unsigned long long)v>>(8*b)); c7_recrc(pg,len); }
+        else if(kind==11){ pg[5]^=(unsigned char)v; c7_recrc(pg,len); }
+        else if(kind==12){ pg[18]=v&255; pg[19]=(v>>8)&255; pg[20]=(v>>16)&255; pg[21]=(v>>24)&255; c7_recrc(pg,len); }
+      }
+      if(kind==7&&me)buf_add(&out,src,len);
+    }
+  }
+  free(c7_phys.p); c7_phys=out;
+}
+/* multiplex: the pages of the link appended last are interleaved with those of a freshly encoded foreign stream
+   (grouping rule: both BOS pages first) */
+static void c7_mux(mk_params *P){
+  buf_t other={0,0,0},tail={0,0,0},out={0,0,0}; static c7_seg sa[4096],sb[4096]; int na,nb,a=0,b=0; long start;
+  if(c7_nlinks<1)return;
+  start=c7_linkoff[c7_nlinks-1];
+  if(mk_encode(P,&other)){ free(other.p); return; }
+  buf_add(&tail,c7_phys.p+start,c7_phys.n-start);
+  na=c7_segments(&tail,sa,4096); nb=c7_segments(&other,sb,4096);
+  buf_add(&out,c7_phys.p,start);
+  if(na>0){ buf_add(&out,tail.p+sa[0].off,sa[0].len); a=1; }
+  if(nb>0){ buf_add(&out,other.p+sb[0].off,sb[0].len); b=1; }
+  while(a<na||b<nb){
+    if(a<na){ buf_add(&out,tail.p+sa[a].off,sa[a].len); a++; }
+    if(b<nb){ buf_add(&out,other.p+sb[b].off,sb[b].len); b++; }
+  }
+  free(c7_phys.p); free(other.p); free(tail.p); c7_phys=out; c7_linkoff[c7_nlinks]=c7_phys.n;
 }
 
 static void c7_linktable(c7_handle *H){
@@ -282,6 +353,13 @@ static int c07_main(int argc,char **argv){
       printf("garbage bytes=%ld\n",c7_phys.n);
     }else if(!strcmp(op,"damage")&&n>=4){
       c7_damage(atoi(tok[1]),atol(tok[2]),atol(tok[3])); printf("damage bytes=%ld\n",c7_phys.n);
+    }else if(!strcmp(op,"pagedamage")&&n>=5){
+      c7_pagedamage(atoi(tok[1]),atol(tok[2]),atol(tok[3]),atoll(tok[4])); printf("pagedamage bytes=%ld\n",c7_phys.n);
+    }else if(!strcmp(op,"mux")&&n>=9){
+      mk_params P; memset(&P,0,sizeof P);
+      P.channels=atoi(tok[1]); P.rate=atol(tok[2]); P.quality=atof(tok[3]); P.n=atol(tok[4]); P.sig=atoi(tok[5]); P.seed=atol(tok[6]); P.pagemode=atoi(tok[7]); P.fill=atoi(tok[8]);
+      P.serial=500000+P.seed%100000; P.chunk=3000;
+      c7_mux(&P); printf("mux bytes=%ld\n",c7_phys.n);
     }else if(!strcmp(op,"table")){
       c7_table(); c7_headers();
     }else if(!strcmp(op,"ref")&&n>=2){
